@@ -1165,6 +1165,10 @@ func (envs *Manager) handleDeviceEvent(evt event.DeviceEvent) {
 			if env.CurrentState() == "RUNNING" {
 				go func() {
 					t.GetParent().UpdateState(sm.ERROR)
+					if !t.GetTraits().Critical {
+						// the failure of a non-critical task must not end the run
+						return
+					}
 					err = env.TryTransition(NewStopActivityTransition(envs.taskman))
 					if err != nil {
 						log.WithPrefix("scheduler").
